@@ -18,6 +18,7 @@ import (
 	"free5gclib/nas/security"
 	"free5gclib/ngap"
 	"free5gclib/openapi/models"
+	"stgutg"
 	"tglib"
 
 	"verifsim/kernel"
@@ -76,6 +77,9 @@ func plainUL(r *kernel.Rand) []byte {
 		return nasTestpacket.GetSecurityModeComplete(r.Bytes(r.Pick(r.Range(0, 40), r.Range(0, 40), r.Range(0, 40), r.Range(240, 300), r.Range(500, 1000), r.Range(0, 40), r.Range(4090, 6500))))
 	case 2:
 		sn := models.Snssai{Sst: 1, Sd: "010203"}
+		if rs := r.Sub("snssai"); rs.Chance(2, 3) { // UEs ask for different slices, with and without SD
+			sn = models.Snssai{Sst: int32(1 + rs.Intn(255)), Sd: []string{"", hex.EncodeToString(rs.Bytes(3)), hex.EncodeToString(rs.Bytes(3))}[rs.Intn(3)]}
+		}
 		return nasTestpacket.GetUlNasTransport_PduSessionEstablishmentRequest(uint8(1+r.Intn(15)), nasMessage.ULNASTransportRequestTypeInitialRequest, "internet", &sn)
 	}
 	return nasTestpacket.GetAuthenticationResponse(r.Bytes(16), "")
@@ -125,6 +129,11 @@ func (t *taskState) runOp(k int) (res string) {
 	case 2:
 		id := nasType.MobileIdentity5GS{Buffer: append([]byte{0x01, 0x00, 0xf1, 0x10, 0xf0, 0xff, 0x00, 0x00}, r.Bytes(5)...)}
 		id.Len = uint16(len(id.Buffer))
+		if rs := r.Sub("suci"); rs.Chance(1, 2) { // the emulator's own SUCI builder; tasks differ in PLMN and MNC length
+			mncLen := 2 + int(t.seed>>5%2)
+			imsi := kernel.New(t.seed).Sub("imsi").Digits(3+mncLen) + rs.Digits(rs.Range(1, 12-mncLen))
+			id = *stgutg.EncodeSuci([]byte(imsi), mncLen)
+		}
 		return hex.EncodeToString(nasTestpacket.GetRegistrationRequest(nasMessage.RegistrationType5GSInitialRegistration, id, nil, ue.GetUESecurityCapability(), nil, nil, nil))
 	case 3:
 		p := plainUL(r)
